@@ -23,7 +23,14 @@ FromLog(r) ==
   [cls |-> r.cls, nft |-> r.nft, sup |-> r.sup, coll |-> r.coll, bal |-> r.bal,
    idx |-> [a \in DOMAIN r.idx |-> [c \in DOMAIN r.idx[a] |-> SetOf(r.idx[a][c])]]]
 
-ObsOf(r) == [invBroken |-> r.invBroken]
+(* what the harness observes besides the query results of the specification's
+   state: the module's registered invariant, the raw store, two more read paths *)
+SetsOf(f) == [c \in DOMAIN f |-> SetOf(f[c])]
+ObsOf(r) ==
+  [invBroken |-> r.invBroken, exportBroken |-> r.exportBroken,
+   raw |-> [cls |-> SetOf(r.raw.cls), tok |-> r.raw.tok, own |-> SetsOf(r.raw.own), sup |-> r.raw.sup,
+            idx |-> [a \in DOMAIN r.raw.idx |-> SetsOf(r.raw.idx[a])]],
+   q |-> [denoms |-> SetOf(r.q.denoms), idxc |-> [a \in DOMAIN r.q.idxc |-> SetsOf(r.q.idxc[a])]]]
 
 TraceInit ==
   /\ Trace[1].ev.name = "Init"
@@ -45,7 +52,7 @@ TraceNext ==
         /\ IF e.name = "Init"
            THEN /\ gh' = GhostInit /\ pre' = t
                 /\ UNCHANGED <<drift, driftAt>>
-           ELSE /\ gh' = GhostStep(gh, st, e, t) /\ pre' = st
+           ELSE /\ gh' = CovStep(gh, st, e, t) /\ pre' = st
                 /\ LET d == Predicted(st, e) # Observed(e, t) IN
                    /\ drift' = drift + (IF d THEN 1 ELSE 0)
                    /\ driftAt' = IF d /\ driftAt = 0 THEN l ELSE driftAt
@@ -58,6 +65,9 @@ TraceSpec == TraceInit /\ [][TraceNext]_tvars
 (* the module's own registered invariant (nft "supply"), run by the harness
    after every event *)
 Crisis_Invariant == ~obs.invBroken
+(* the module's own genesis validation accepts the module's own export (diagnostic; the
+   statement belongs to C12) *)
+Export_Valid == ~obs.exportBroken
 
 Clauses ==
   [C14_Owner |-> C14_Owner(st),
@@ -68,11 +78,16 @@ Clauses ==
    C14_ClassHandover |-> C14_ClassHandover(pre, ev, st),
    C14_Ids |-> C14_Ids(pre, ev, st),
    C14_Supply |-> C14_Supply(st),
+   C14_StoreOwner |-> C14_StoreOwner(obs.raw),
+   C14_StoreSupply |-> C14_StoreSupply(st, obs.raw),
+   X14_StoreTidy |-> X14_StoreTidy(obs.raw),
+   X14_ReadBack |-> X14_ReadBack(st, obs.raw, obs.q),
    Rejected_NoEffect |-> Rejected_NoEffect(pre, ev, st),
    X14_Recipient |-> X14_Recipient(pre, ev, st),
    X14_Collection |-> X14_Collection(st),
    X14_Fidelity |-> X14_Fidelity(pre, ev, st),
-   X14_CrisisInvariant |-> Crisis_Invariant]
+   X14_CrisisInvariant |-> Crisis_Invariant,
+   X14_ExportValid |-> Export_Valid]
 
 Failing == IF ev.name = "Init" THEN {} ELSE {c \in DOMAIN Clauses : ~Clauses[c]}
 
@@ -85,6 +100,100 @@ Chg == ev.n # KEEP \/ ev.u # KEEP \/ ev.h # KEEP \/ ev.d # KEEP
 SomeKeep == ev.n = KEEP \/ ev.u = KEEP \/ ev.h = KEEP \/ ev.d = KEEP
 PreOwner == OwnerOf(pre, ev.cls, ev.id)
 PreCls == pre.cls[ev.cls]
+(* negative probing / unusual inputs (round 7) *)
+TokOp == ev.name \in TokenOps
+Rej(n) == IsOp(n) /\ ~ev.ok
+Acc(n) == IsOp(n) /\ ev.ok
+PreHasCls == HasClass(pre, ev.cls)
+PreHasTok == HasNFT(pre, ev.cls, ev.id)
+WasBurned == <<ev.cls, ev.id>> \in gh.burned /\ ~PreHasTok
+ExOwner == <<ev.cls, ev.id, ev.who>> \in gh.exOwner
+ExCreator == <<ev.cls, ev.who>> \in gh.exCreator
+ProbeNames ==
+  {"issue_bad_id_rej", "issue_keyword_rej", "issue_sentinel_id_rej", "issue_len101_ok", "issue_len102_rej",
+   "issue_case_variant_ok", "issue_prefix_ok", "mint_ibc_rej", "ibc_edit_ok", "ibc_transfer_ok", "ibc_burn_ok",
+   "ibc_handover_ok", "ibc_stranger_rej", "mint_bad_token_id_rej", "mint_sentinel_token_id_rej",
+   "mint_len101_token_ok", "mint_len102_token_rej", "mint_uri256_ok", "mint_uri257_rej", "edit_uri257_rej",
+   "transfer_uri257_ok", "mint_badjson_rej", "edit_badjson_rej", "transfer_badjson_rej",
+   "mint_sentinel_name_ok", "mint_to_module_ok", "transfer_to_module_ok", "handover_to_module_ok",
+   "module_sender_rej", "module_owned_token_rej", "mint_prefix_token_ok", "mint_case_token_ok",
+   "mint_token_named_as_class_ok", "op_prefix_token_rej", "op_case_token_rej", "op_prefix_class_rej",
+   "op_case_class_rej", "op_other_class_token_rej", "edit_burned_rej", "transfer_burned_rej",
+   "burn_burned_rej", "exowner_on_burned_rej", "exowner_on_moved_rej", "edit_never_minted_rej",
+   "transfer_never_minted_rej", "burn_never_minted_rej", "op_no_class_rej", "mint_no_class_rej",
+   "handover_no_class_rej", "creator_on_foreign_token_rej", "token_owner_handover_rej",
+   "excreator_handover_rej", "remint_other_owner", "remint_after_handover", "mint_restricted_empty_rej",
+   "edit_each_field", "edit_all_keep_ok", "transfer_keep_all_restricted_ok", "handover_to_self_ok",
+   "issue_by_module_rej", "probe_state_rej"}
+(* a token that exists under an id related to the one named: the named one
+   does not exist in this class *)
+SiblingExists(ids) == PreHasCls /\ ~PreHasTok /\ \E i \in ids : HasNFT(pre, ev.cls, i)
+ProbeEx(c) ==
+  CASE c = "issue_bad_id_rej" -> Rej("IssueDenom") /\ BadClassId(ev.cls)
+    [] c = "issue_keyword_rej" -> Rej("IssueDenom") /\ ev.cls \in KeywordIds
+    [] c = "issue_sentinel_id_rej" -> Rej("IssueDenom") /\ ev.cls = "SENT"
+    [] c = "issue_len101_ok" -> Acc("IssueDenom") /\ ev.cls = "L101"
+    [] c = "issue_len102_rej" -> Rej("IssueDenom") /\ ev.cls = "L102"
+    [] c = "issue_case_variant_ok" -> Acc("IssueDenom") /\ ev.cls = "clA" /\ HasClass(pre, "cla")
+    [] c = "issue_prefix_ok" -> Acc("IssueDenom") /\ ((ev.cls = "clab" /\ HasClass(pre, "cla")) \/ (ev.cls = "cla" /\ HasClass(pre, "clab")))
+    [] c = "mint_ibc_rej" -> Rej("MintNFT") /\ ev.cls \in IbcIds /\ PreHasCls /\ PreCls.creator = ev.who
+    [] c = "ibc_edit_ok" -> Acc("EditNFT") /\ ev.cls \in IbcIds /\ Chg
+    [] c = "ibc_transfer_ok" -> Acc("TransferNFT") /\ ev.cls \in IbcIds
+    [] c = "ibc_burn_ok" -> Acc("BurnNFT") /\ ev.cls \in IbcIds
+    [] c = "ibc_handover_ok" -> Acc("TransferDenom") /\ ev.cls \in IbcIds
+    [] c = "ibc_stranger_rej" -> TokOp /\ ~ev.ok /\ ev.cls \in IbcIds /\ PreHasTok /\ PreOwner # ev.who
+    [] c = "mint_bad_token_id_rej" -> Rej("MintNFT") /\ PreHasCls /\ BadTokenId(ev.id)
+    [] c = "mint_sentinel_token_id_rej" -> Rej("MintNFT") /\ PreHasCls /\ ev.id = "SENT"
+    [] c = "mint_len101_token_ok" -> Acc("MintNFT") /\ ev.id = "L101"
+    [] c = "mint_len102_token_rej" -> Rej("MintNFT") /\ PreHasCls /\ ev.id = "L102"
+    [] c = "mint_uri256_ok" -> Acc("MintNFT") /\ ev.u = URI256
+    [] c = "mint_uri257_rej" -> Rej("MintNFT") /\ PreHasCls /\ ev.u = URI257
+    [] c = "edit_uri257_rej" -> Rej("EditNFT") /\ PreHasTok /\ PreOwner = ev.who /\ ~PreCls.updateR /\ ev.u = URI257
+    [] c = "transfer_uri257_ok" -> Acc("TransferNFT") /\ ev.u = URI257
+    [] c = "mint_badjson_rej" -> Rej("MintNFT") /\ PreHasCls /\ ev.d = BADJSON
+    [] c = "edit_badjson_rej" -> Rej("EditNFT") /\ PreHasTok /\ PreOwner = ev.who /\ ~PreCls.updateR /\ ev.d = BADJSON
+    [] c = "transfer_badjson_rej" -> Rej("TransferNFT") /\ PreHasTok /\ PreOwner = ev.who /\ ~PreCls.updateR /\ ev.d = BADJSON
+    [] c = "mint_sentinel_name_ok" -> Acc("MintNFT") /\ ev.n = KEEP
+    [] c = "mint_to_module_ok" -> Acc("MintNFT") /\ ev.to \in Unsignable
+    [] c = "transfer_to_module_ok" -> Acc("TransferNFT") /\ ev.to \in Unsignable
+    [] c = "handover_to_module_ok" -> Acc("TransferDenom") /\ ev.to \in Unsignable
+    [] c = "module_sender_rej" -> ~ev.ok /\ ev.who \in Unsignable
+    [] c = "module_owned_token_rej" -> TokOp /\ ~ev.ok /\ PreHasTok /\ PreOwner \in Unsignable
+    [] c = "mint_prefix_token_ok" -> Acc("MintNFT") /\ ev.id = "tkab" /\ HasNFT(pre, ev.cls, "tka")
+    [] c = "mint_case_token_ok" -> Acc("MintNFT") /\ ev.id = "tkA" /\ HasNFT(pre, ev.cls, "tka")
+    [] c = "mint_token_named_as_class_ok" -> Acc("MintNFT") /\ ev.id = ev.cls
+    [] c = "op_prefix_token_rej" -> TokOp /\ ~ev.ok /\ ((ev.id = "tka" /\ SiblingExists({"tkab"})) \/ (ev.id = "tkab" /\ SiblingExists({"tka"})))
+    [] c = "op_case_token_rej" -> TokOp /\ ~ev.ok /\ ((ev.id = "tka" /\ SiblingExists({"tkA"})) \/ (ev.id = "tkA" /\ SiblingExists({"tka"})))
+    [] c = "op_prefix_class_rej" -> ~ev.ok /\ ~PreHasCls /\ ((ev.cls = "cla" /\ HasClass(pre, "clab")) \/ (ev.cls = "clab" /\ HasClass(pre, "cla")))
+    [] c = "op_case_class_rej" -> ~ev.ok /\ ~PreHasCls /\ ((ev.cls = "cla" /\ HasClass(pre, "clA")) \/ (ev.cls = "clA" /\ HasClass(pre, "cla")))
+    [] c = "op_other_class_token_rej" -> TokOp /\ ~ev.ok /\ PreHasCls /\ ~PreHasTok
+                                          /\ \E d \in DOMAIN pre.nft : d # ev.cls /\ HasNFT(pre, d, ev.id) /\ pre.nft[d][ev.id].owner = ev.who
+    [] c = "edit_burned_rej" -> Rej("EditNFT") /\ WasBurned
+    [] c = "transfer_burned_rej" -> Rej("TransferNFT") /\ WasBurned
+    [] c = "burn_burned_rej" -> Rej("BurnNFT") /\ WasBurned
+    [] c = "exowner_on_burned_rej" -> TokOp /\ ~ev.ok /\ WasBurned /\ ExOwner
+    [] c = "exowner_on_moved_rej" -> TokOp /\ ~ev.ok /\ PreHasTok /\ PreOwner # ev.who /\ ExOwner
+    [] c = "edit_never_minted_rej" -> Rej("EditNFT") /\ PreHasCls /\ ~PreHasTok /\ <<ev.cls, ev.id>> \notin gh.burned /\ ~BadTokenId(ev.id)
+    [] c = "transfer_never_minted_rej" -> Rej("TransferNFT") /\ PreHasCls /\ ~PreHasTok /\ <<ev.cls, ev.id>> \notin gh.burned /\ ~BadTokenId(ev.id)
+    [] c = "burn_never_minted_rej" -> Rej("BurnNFT") /\ PreHasCls /\ ~PreHasTok /\ <<ev.cls, ev.id>> \notin gh.burned /\ ~BadTokenId(ev.id)
+    [] c = "op_no_class_rej" -> TokOp /\ ~ev.ok /\ ~PreHasCls /\ ~BadClassId(ev.cls) /\ ~BadTokenId(ev.id)
+    [] c = "mint_no_class_rej" -> Rej("MintNFT") /\ ~PreHasCls /\ ~BadClassId(ev.cls) /\ ev.cls \notin IbcIds
+    [] c = "handover_no_class_rej" -> Rej("TransferDenom") /\ ~PreHasCls /\ ~BadClassId(ev.cls)
+    [] c = "creator_on_foreign_token_rej" -> TokOp /\ ~ev.ok /\ PreHasTok /\ PreOwner # ev.who /\ PreCls.creator = ev.who
+    [] c = "token_owner_handover_rej" -> Rej("TransferDenom") /\ PreHasCls /\ PreCls.creator # ev.who
+                                          /\ \E i \in DOMAIN pre.nft[ev.cls] : pre.nft[ev.cls][i].owner = ev.who
+    [] c = "excreator_handover_rej" -> Rej("TransferDenom") /\ PreHasCls /\ PreCls.creator # ev.who /\ ExCreator
+    [] c = "remint_other_owner" -> Acc("MintNFT") /\ <<ev.cls, ev.id>> \in gh.burned /\ <<ev.cls, ev.id, ev.to>> \notin gh.exOwner
+    [] c = "remint_after_handover" -> Acc("MintNFT") /\ <<ev.cls, ev.id>> \in gh.burned /\ ev.cls \in gh.handed
+    [] c = "mint_restricted_empty_rej" -> Rej("MintNFT") /\ PreHasCls /\ PreCls.mintR /\ PreCls.creator # ev.who
+                                           /\ DOMAIN pre.nft[ev.cls] = {}
+    [] c = "edit_each_field" -> Acc("EditNFT") /\ Cardinality({f \in {"n", "u", "h", "d"} : ev[f] # KEEP}) = 1
+    [] c = "edit_all_keep_ok" -> Acc("EditNFT") /\ ~Chg
+    [] c = "transfer_keep_all_restricted_ok" -> Acc("TransferNFT") /\ ~Chg /\ PreHasCls /\ PreCls.updateR /\ ev.to # ev.who
+    [] c = "handover_to_self_ok" -> Acc("TransferDenom") /\ ev.to = ev.who
+    [] c = "issue_by_module_rej" -> Rej("IssueDenom") /\ ev.who \in Unsignable
+    [] c = "probe_state_rej" -> ~ev.ok /\ ev.name # "TxFailed" /\ Apply(pre, ev).why \notin BasicWhys \cup {"unknown"}
+    [] OTHER -> FALSE
 Exercised ==
   IF ev.name \in {"Init", "EndBlock"} THEN {} ELSE
   {c \in {"issue_ff", "issue_ft", "issue_tf", "issue_tt", "issue_dup_rej",
@@ -93,7 +202,7 @@ Exercised ==
           "transfer_ok", "transfer_changes_ok", "transfer_restricted_changes_rej",
           "transfer_restricted_plain_ok", "transfer_self", "transfer_stranger_rej",
           "burn_ok", "burn_stranger_rej", "handover_ok", "handover_stranger_rej",
-          "handover_then_mint", "old_creator_mint_rej", "reject"} :
+          "handover_then_mint", "old_creator_mint_rej", "reject"} \cup ProbeNames :
      CASE c = "issue_ff" -> IsOp("IssueDenom") /\ ev.ok /\ ~ev.mintR /\ ~ev.updateR
        [] c = "issue_ft" -> IsOp("IssueDenom") /\ ev.ok /\ ~ev.mintR /\ ev.updateR
        [] c = "issue_tf" -> IsOp("IssueDenom") /\ ev.ok /\ ev.mintR /\ ~ev.updateR
@@ -130,7 +239,8 @@ Exercised ==
                                        /\ HasClass(pre, ev.cls) /\ PreCls.mintR
        [] c = "old_creator_mint_rej" -> IsOp("MintNFT") /\ ~ev.ok /\ ev.cls \in gh.handed
                                          /\ HasClass(pre, ev.cls) /\ PreCls.mintR /\ PreCls.creator # ev.who
-       [] c = "reject" -> ~ev.ok}
+       [] c = "reject" -> ~ev.ok
+       [] OTHER -> ProbeEx(c)}
 Coverage == Exercised = {} \/ PrintT(<<"EXERCISED", Exercised>>)
 
 Report == (l = Len(Trace) + 1) => PrintT(<<"TRACE-END", Len(Trace), drift, driftAt>>)
